@@ -79,7 +79,7 @@ func encodeAll(ns []*node) []byte {
 	return out
 }
 
-var tagPool = []int{1, 2, 3, 4, 5, 6, 15, 16, 2047, 2048, 18999, 20000, 1<<18 - 1, 1 << 18, 1<<25 - 1, 1 << 25, 1 << 26, 1<<29 - 1}
+var tagPool = []int{1, 2, 3, 4, 5, 6, 15, 16, 31, 32, 33, 63, 64, 65, 127, 128, 2047, 2048, 18999, 20000, 1<<18 - 1, 1 << 18, 1<<25 - 1, 1 << 25, 1 << 26, 1<<29 - 1}
 
 var interesting = []uint64{0, 1, 2, 127, 128, 300, 1<<31 - 1, 1 << 31, 1<<32 - 1, 1 << 32, 1<<63 - 1, 1 << 63, math.MaxUint64, math.MaxUint64 - 1}
 
@@ -134,6 +134,39 @@ func randLevel(r *hx.Rng, depth int) *level {
 		lv.roles[t] = role
 	}
 	return lv
+}
+
+// wideLevel: more tags at one level than a machine word has bits (consecutive field numbers, so that field number,
+// sorted position and count all cross 32 / 64 / 128), scalar roles only plus one nested message near the end
+func wideLevel(r *hx.Rng) *level {
+	lv := &level{roles: map[int]int{}, sub: map[int]*level{}}
+	n := []int{33, 65, 66, 70, 129, 130}[r.Intn(6)]
+	base := 1
+	if r.Intn(4) == 0 {
+		base = 1000
+	}
+	for i := 0; i < n; i++ {
+		t := base + i
+		role := []int{roleVarint, roleString, roleFixed32, rolePackedVarint}[r.Intn(4)]
+		if i == n-2 {
+			role = roleNested
+			lv.sub[t] = randLevel(r, 0)
+		}
+		lv.tags = append(lv.tags, t)
+		lv.roles[t] = role
+	}
+	return lv
+}
+
+func allDef(lv *level) *def {
+	d := &def{sub: map[int]*def{}}
+	for _, t := range lv.tags {
+		d.keys = append(d.keys, t)
+		if s := lv.sub[t]; s != nil {
+			d.sub[t] = allDef(s)
+		}
+	}
+	return d
 }
 
 func randMessage(r *hx.Rng, lv *level) []*node {
@@ -1252,6 +1285,8 @@ func main() {
 	switch prop {
 	case "C13":
 		streamC13(r)
+		streamC13Wide(r.Fork("wide"))
+		streamC13DefReuse(r.Fork("defreuse"))
 		streamC13Systematic(r.Fork("systematic"))
 		streamC13AfterError(r.Fork("aftererror"))
 		// a Decoder object's answers must not depend on what it decoded before (max-buffer / filter options trim the
@@ -1658,6 +1693,11 @@ func streamC14SameShape(r *hx.Rng) {
 	for i := 0; i < n; i++ {
 		lv := randLevel(r, 2)
 		d := randDef(r, lv, 2)
+		if i%10 == 9 {
+			// a definition with more tags at one level than a machine word has bits
+			lv = wideLevel(r)
+			d = allDef(lv)
+		}
 		if len(d.keys) == 0 {
 			continue
 		}
@@ -1675,8 +1715,12 @@ func streamC14SameShape(r *hx.Rng) {
 		if len(inA) == 0 || len(inB) == 0 {
 			continue
 		}
+		mbs := []int{-1, 0, 1, 2, 1000}
+		if i%10 == 9 {
+			mbs = []int{-1, 2, 1000}
+		}
 		for _, fast := range []bool{false, true} {
-			for _, mb := range []int{-1, 0, 1, 2, 1000} {
+			for _, mb := range mbs {
 				mk := func() *lazyproto.Decoder {
 					opts := []lazyproto.Option{}
 					if fast {
@@ -1917,6 +1961,171 @@ func streamC13AfterError(r *hx.Rng) {
 					fail("after a failed Decode the same Decoder reads a well-formed message differently from a fresh Decoder", cs, want[j], g, "lazy-after-error")
 					break
 				}
+			}
+		}
+	}
+}
+
+// C13 with definitions wider than a machine word: every tag requested, every accessor compared with the reference
+func streamC13Wide(r *hx.Rng) {
+	n := 6
+	if thorough {
+		n = 60
+	}
+	for i := 0; i < n; i++ {
+		lv := wideLevel(r)
+		d := allDef(lv)
+		msg := randMessage(r, lv)
+		input := encodeAll(msg)
+		var ops []aop
+		for _, t := range lv.tags {
+			kind := kinds[r.Intn(len(kinds))]
+			switch lv.roles[t] {
+			case roleVarint, rolePackedVarint:
+				kind = "uint64"
+			case roleString:
+				kind = "string"
+			case roleFixed32:
+				kind = "fixed32"
+			}
+			ops = append(ops, aop{typ: 'F', path: []int{t}, kind: kind, slice: true}, aop{typ: 'F', path: []int{t}, kind: kind, slice: false})
+		}
+		wf := oneWT(msg, d) && len(input) > 0
+		for _, fast := range []bool{false, true} {
+			for _, entry := range []string{"dec", "fn"} {
+				lazyCase("wide", entry, fast, d, input, ops, wf)
+			}
+		}
+	}
+}
+
+// C13 through the deprecated lazyproto.Decode(data, def) with ONE Def value that the caller edits in place between calls
+// (Def.Tags / NestedTag / plain map assignment all do that): every call must answer for the definition as it is at that
+// call - the same as a Def built from scratch with the same contents.
+func streamC13DefReuse(r *hx.Rng) {
+	n := 120
+	if thorough {
+		n = 1500
+	}
+	for i := 0; i < n; i++ {
+		lv := randLevel(r, 2)
+		if len(lv.tags) < 2 {
+			continue
+		}
+		msg := randMessage(r, lv)
+		input := encodeAll(msg)
+		if len(input) == 0 {
+			continue
+		}
+		d1 := randDef(r, lv, 2)
+		if len(d1.keys) == 0 {
+			continue
+		}
+		// the edited definition: same number of top-level keys where possible (swap one key for another tag of the
+		// message), or a nested definition that gains / loses a tag, or an arbitrary other definition
+		d2 := &def{keys: append([]int{}, d1.keys...), sub: map[int]*def{}}
+		for k, s := range d1.sub {
+			d2.sub[k] = &def{keys: append([]int{}, s.keys...), sub: s.sub}
+		}
+		switch i % 3 {
+		case 0:
+			j := r.Intn(len(d2.keys))
+			nt := lv.tags[r.Intn(len(lv.tags))]
+			dup := false
+			for _, k := range d2.keys {
+				if k == nt || k == -nt {
+					dup = true
+				}
+			}
+			if dup {
+				nt = 7000 + r.Intn(5)
+			}
+			delete(d2.sub, d2.keys[j])
+			d2.keys[j] = nt
+		case 1:
+			edited := false
+			for k, s := range d2.sub {
+				if sl := lv.sub[k]; sl != nil && len(sl.tags) > 0 {
+					nt := sl.tags[r.Intn(len(sl.tags))]
+					has := false
+					for _, x := range s.keys {
+						if x == nt || x == -nt {
+							has = true
+						}
+					}
+					if !has {
+						s.keys = append(s.keys, nt)
+						edited = true
+					} else if len(s.keys) > 1 {
+						s.keys = s.keys[1:]
+						edited = true
+					}
+					break
+				}
+			}
+			if !edited {
+				d2 = randDef(r, lv, 2)
+			}
+		default:
+			d2 = randDef(r, lv, 2)
+		}
+		if len(d2.keys) == 0 {
+			continue
+		}
+		cs := fmt.Sprintf("def1=%s def2=%s input=%s", d1, d2, hx.B(input))
+		hx.Inflight("C13 def reuse: " + cs)
+		shared := d1.toGo()
+		obs := func(gd lazyproto.Def, d *def) (out []string) {
+			defer func() {
+				if recover() != nil {
+					out = []string{"panic"}
+				}
+			}()
+			res, err := lazyproto.Decode(append([]byte{}, input...), gd)
+			if err != nil {
+				return []string{"err"}
+			}
+			defer res.Close()
+			return sweep(&res, d)
+		}
+		_ = obs(shared, d1)
+		// edit in place: make `shared` equal to d2's contents without replacing the map value
+		var edit func(dst lazyproto.Def, d *def)
+		edit = func(dst lazyproto.Def, d *def) {
+			want := map[int]bool{}
+			for _, k := range d.keys {
+				want[k] = true
+			}
+			for k := range dst {
+				if !want[k] {
+					delete(dst, k)
+				}
+			}
+			for _, k := range d.keys {
+				if s := d.sub[k]; s != nil {
+					if cur := dst[k]; cur != nil {
+						edit(cur, s)
+					} else {
+						dst[k] = s.toGo()
+					}
+				} else {
+					dst[k] = nil
+				}
+			}
+		}
+		edit(shared, d2)
+		got := obs(shared, d2)
+		want := obs(d2.toGo(), d2)
+		sink.OracleN++
+		sink.Count("defreuse-probe")
+		for j := range want {
+			if j >= len(got) || got[j] != want[j] {
+				g := "missing"
+				if j < len(got) {
+					g = got[j]
+				}
+				fail("lazyproto.Decode with a Def edited in place since an earlier call answers differently from a Def built from scratch with the same contents", cs, want[j], g, "def-stale")
+				break
 			}
 		}
 	}
